@@ -8,7 +8,7 @@
 (* the recorded proof bag - parsed with Boc!Parse and hashed with Cells          *)
 (* (Prim!Sha256) by the specification itself - is the proof the specification    *)
 (* requires for THIS request's prune set / key (ProofVerdict, WalkVerdict).      *)
-(*  {"k":"Reset","kind":"walk"|"dict","src","mode","n":8|0,"cells":[..],"roots":[0],"orig":{"cells","roots"}?,"preread":s?} *)
+(*  {"k":"Reset","kind":"walk"|"dict","src","mode","n":8|0,"cells":[..],"roots":[0],"orig":{"cells","roots"}?,"preread":s?,"bag":hex?,"libmade":true?} *)
 (*     orig: the source is the tree under an earlier proof of the level-0 tree orig (two-step proofs)                    *)
 (*  {"k":"Cursor","c":session}             handle 0 := prover.Cursor()                                                  *)
 (*  {"k":"Ref","c":session,"h":handle,"nh":new handle,"i":0}   nh := h.Ref(i)   (h and all other handles stay valid)     *)
@@ -54,7 +54,8 @@ ResetOutcome(e) ==
   \* a level-0 tree with Merkle-proof / Merkle-update cells below the root (cursor walks only)
   IF HasMerkle(T0) THEN (IF ExoticSourceOK(T0, R0) /\ e.n = 0 /\ ~Has(e, "orig")
                            THEN [why |-> "", T |-> T0, IT |-> InfoTable(T0), R |-> R0, present |-> {}]
-                           ELSE [why |-> "domain:tree"])
+                           \* "libmade": the Merkle cell is an earlier proof of the library itself (judged in its own segment)
+                           ELSE [why |-> IF Has(e, "libmade") THEN "skip:source-not-well-formed" ELSE "domain:tree"])
   ELSE IF ~SourceOK(T0) THEN [why |-> IF Has(e, "orig") THEN "skip:source-not-well-formed" ELSE "domain:tree"]
   ELSE IF Partial(T0) /\ ~Has(e, "orig") THEN [why |-> "domain:partial-source-without-original"]
   ELSE
